@@ -28,7 +28,13 @@ def run(ctx):
     scns = ctx.tlc_gen("MC_Frag", "Gen_Frag.cfg", num=3000 if T else 300, depth=12)
     ctx.write_scenarios("frag", scns)
     ctx.go_test("core", "./internal/frag/", "TestVerif_C05$", ["harness/core/internal/frag/c05_test.go"])
-    ctx.validate("Prop_C05", sig=sig, distinct=distinct)
+    ctx.validate("Prop_C05", sig=sig, distinct=distinct, traces=[ctx.out + "/trace-C05.ndjson"])
+    # end-to-end part, client side: the client's UDP session manager (Sys_ClientUDP / Prop_C05e)
+    ctx.tlc_mc("Sys_ClientUDP", "MC_ClientUDP_big.cfg" if T else "MC_ClientUDP.cfg", timeout=1200)
+    for m in ("RouteByID", "DeleteOnClose", "FreshIDs"):
+        ctx.tlc_mc("Sys_ClientUDP", "MC_ClientUDP_mut%s.cfg" % m, expect_violation=True)
+    ctx.go_test("core", "./client/", "TestVerif_C05e$", ["harness/core/client/c05_client_test.go"])
+    ctx.validate("Prop_C05e", sig=sig, traces=[ctx.out + "/trace-C05e.ndjson"])
     ctx.assumptions += ["messages in flight carry distinct packet IDs (as the statement says)",
                         "byte equality of payloads is observed by the harness (re-parsed through the real wire codec); the monitor decides on lengths, counts, identities and order"]
     return ctx.finish(rule="FragCall: distinct (payload length, header size, limit) triples at the real constants; Feed: fragment deliveries with count>1 replayed on a real Defragger (TLC-generated arrival orders + seeded random ones)")
